@@ -2,6 +2,10 @@
 # soak.sh <tier> <seed-from> <seed-to> <ids...> : runs checks over a range of seeds, prints non-zero exits
 TIER=$1; A=$2; B=$3; shift 3
 DIR="$(cd "$(dirname "$0")/.." && pwd)"
+# inside `vp run --with-repo` use the repository snapshot, so that edits to /repo do not disturb the soak
+if [ -n "${VP_RUN_REPO:-}" ] && [ "$DIR" != "/verif" ]; then
+  sed -i "s#path = \"/repo\"#path = \"$VP_RUN_REPO\"#" "$DIR/harness/Cargo.toml"
+fi
 for s in $(seq $A $B); do
   for id in "$@"; do
     out=$(VERIF_SEED=$s "$DIR/check.sh" $id $TIER 2>&1); rc=$?
